@@ -204,6 +204,12 @@ def run_case(case, env):
         plant = step.get("plant")
         if not plant:
             vs = engine.eval_clean_run(sb, step, before, after, res, pred)
+            if res.exit_status == 0 and any(p in before.files for p in relpred):
+                # every binding of the accepted document is in the outputs as they are on disk NOW: an output kept from an
+                # earlier version of the document holds some of them in neither place
+                vs += engine.freshness(sb, step, relpred, after)
+                stats["runs"] += 1
+                _bump(probes, "freshness_twins_run")
             if res.exit_status != 0:
                 vs.append(V("recovery", "c04:clean-doc-rejected", "document without planted error exits %s:\n%s" % (res.disposition(), res.stderr[-600:])))
             else:
@@ -212,7 +218,7 @@ def run_case(case, env):
                         pass
                     golden_content[p] = after.content(p)
             if step.get("rerun") and prev_plain is not None and all(prev_plain.get(k) == step.get(k) for k in ("sources", "O", "no_dyn", "no_lower")) and prev_exit == 0:
-                ch = [p for p in engine.diff_paths(before, after) if not (fsmodel.is_temp(p) and res.exit_status != 0)]
+                ch = [p for p in engine.diff_paths(before, after) if not (engine.is_scratch(sb, p, relpred, before) and res.exit_status != 0)]
                 if ch:
                     vs.append(V("untouched", "rerun:touched", "identical re-run changed %s" % ch))
             for v in vs:
@@ -250,7 +256,7 @@ def run_case(case, env):
         # nothing but outputs of the *other* sources may change either
         vs += [v for v in engine.check_confinement(sb, step, res, pred)]
         for p in engine.diff_paths(before, after):
-            if p not in relpred and not fsmodel.is_temp(p):
+            if p not in relpred and not engine.is_scratch(sb, p, relpred, before):
                 vs.append(V("outputs-untouched", "fileset:unexpected-change", "path %s changed during a failing run" % p))
         diags = parse_diagnostics(res.stderr)
         line, c0, c1 = plant["span"] if plant["span"] else (None, None, None)
